@@ -9,14 +9,14 @@ CIPHERS = ["AEAD_CHACHA20_POLY1305", "AEAD_AES_256_GCM", "AEAD_AES_192_GCM", "AE
 _n = [0]
 
 
-def run_vt(ctx, behs, label, seed=None, base_idx=0):
+def run_vt(ctx, behs, label, seed=None, base_idx=0, via_service=False):
     _n[0] += 1
     d = ctx.sub("vt%d" % _n[0])
     bf, of = os.path.join(d, "behs.json"), os.path.join(d, "cases.ndjson")
     json.dump(behs, open(bf, "w"))
     vlib.ensure_harness_sum()
     env = vlib.goenv("1.26", {"GODEBUG": "asynctimerchan=0", "TCPVT_IN": bf, "TCPVT_OUT": of, "TCPVT_BASE": str(base_idx),
-                               "TCPVT_SEED": str(ctx.seed if seed is None else seed)})
+                               "TCPVT_SEED": str(ctx.seed if seed is None else seed), "TCPVT_SERVICE": "1" if via_service else "0"})
     cmd = [vlib.gobin("1.26"), "test", "-vet=off", "-count=1", "-run", "^TestVT$", "-timeout", "600s", "./cmd/tcpconn"]
     try:
         p = subprocess.run(cmd, cwd=vlib.HARNESS, env=env, stdout=subprocess.PIPE, stderr=subprocess.STDOUT, text=True, timeout=700)
@@ -104,8 +104,12 @@ def run(ctx, timed_behs, invalid_behs, rng):
     q = ctx.quick
     # the same TLC behaviours as on real sockets, plus clients that never half-close
     nofin = tc.gen(ctx, "Gen_TcpConn_C06NoFin.cfg", 500 if q else 4000, seed=ctx.seed + 2)
-    pick = tc.select(nofin, 80 if q else 800, lambda f: (f["hs"], min(f["ntok"], 4)), rng)
-    behs = [b for b in timed_behs if len(b["sc"]) == 1] + pick + invalid_behs
+    pick = tc.select(nofin, 60 if q else 800, lambda f: (f["hs"], min(f["ntok"], 4)), rng)
+    # ... and the listener closing while a probe is being absorbed (StreamServe cancels the handlers' context)
+    sh = tc.gen(ctx, "Gen_TcpConn_C06Shutdown.cfg", 1200 if q else 6000, seed=ctx.seed + 5)
+    shp = tc.select([b for b in sh if tc.features(b)["lclose"] and tc.features(b)["probe"]], 30 if q else 300,
+                    lambda f: (f["hs"], min(f["ntok"], 3)), rng)
+    behs = [b for b in timed_behs if len(b["sc"]) == 1] + pick + invalid_behs + shp
     cases = run_vt(ctx, behs, "vt-behaviours")
     report(ctx, cases, behs, "vt-behaviours")
     tc.mech_pass(ctx, cases, behs, label="vt-behaviours")
